@@ -1,6 +1,7 @@
 package verifsim
 
 import (
+	"crypto/x509"
 	"fmt"
 	"net/url"
 	"os"
@@ -32,7 +33,56 @@ func init() {
 	}, Run: runC20})
 }
 
+// c15signerRollover: the CA is re-keyed under its old name. The list at the distribution point, loaded while the old
+// key signed it, is now issued under the new key: the refresh cannot verify it (mode verify) and keeps the old list -
+// until a client of the re-keyed CA shakes hands and brings the new CA certificate in its chain. From then on the
+// periodic refresh takes the new issues: within one more interval what they revoke is enforced.
+func c15signerRollover(h *Harness) {
+	tp := h.Tape
+	sc := h.R.Scenario
+	backend := []string{"memory", "disk"}[(h.Idx/8)%2]
+	fetch := Pick(tp, "", "fetch_background")
+	sc["scenario"], sc["backend"], sc["fetch"] = "signer-rollover", backend, fetch
+	h.R.NonTrivial = true
+	w := NewWorld(h, WorldOpts{})
+	loc := w.NewLocation(LocOpts{Name: "L1", URL: "http://crl.sim/a.crl", Issuer: w.A, NVers: 3, Extra: Pick(tp, 2, 40), Width: 8})
+	cfg := NodeCfg{Mode: "crl_only", Storage: backend, UpdateInterval: "10m", SigMode: "verify", FetchMode: fetch}
+	n := h.NewNode("n1", cfg)
+	if err := h.Provision(n); err != nil {
+		h.Violation("C15.setup", "provision-failed", "%v", err)
+		return
+	}
+	h.Handshake(n, "old-key-client", w.ChainFor(loc.Cert(loc.Never[0]), w.A))
+	h.Settle(11 * time.Minute)
+	if p := loc.Pattern(n); p != "v1" {
+		h.Violation("C15.setup", "rollover:load-failed", "fault-free load of the list (old key) shows pattern %s", p)
+		return
+	}
+	// the re-keyed CA issues v2 (and later v3) under the new key
+	loc.Cur, loc.Variant = 1, "sibling"
+	h.Settle(11 * time.Minute)
+	p1 := loc.Pattern(n)
+	newClient := w.Sib.Issue(EEOpts{Serial: loc.Never[0], CDP: []string{loc.URL}})
+	hs := h.Handshake(n, "new-key-client", [][]*x509.Certificate{{newClient, w.Sib.Cert}})
+	h.Settle(21 * time.Minute) // two ticks
+	p2 := loc.Pattern(n)
+	loc.Cur = 2
+	h.Settle(21 * time.Minute)
+	p3 := loc.Pattern(n)
+	h.R.Checks += 2
+	sc["patterns"] = fmt.Sprintf("%s %s %s", p1, p2, p3)
+	if p2 != "v2" || p3 != "v3" {
+		h.Violation("C15.b-revocation-enforced", "after-signer-rollover:"+backend, "a CA re-keyed under its old name: the list issued under the new key could not be verified (in force after the first refresh: %s, as it should be), then a client of the re-keyed CA shook hands (%s) and brought the new CA certificate; two refresh intervals later the list in force is %s (expected v2), and two intervals after v3 was published it is %s (expected v3): the refresh never recovered", p1, errStr(hs.Err), p2, p3)
+	}
+	h.R.Sample = map[string]any{"scenario": "signer-rollover", "backend": backend, "patterns": sc["patterns"]}
+	h.Cleanup(n)
+}
+
 func runC15(h *Harness) {
+	if h.Idx%8 == 5 {
+		c15signerRollover(h)
+		return
+	}
 	tp := h.Tape
 	sc := h.R.Scenario
 	nn := 1 + tp.Weighted(2, 3, 1)
